@@ -17,6 +17,9 @@ STATIC = dict(STRUCT, n_txn=(0, 0), no_once=False, weights=W(STRUCT["weights"], 
 
 # definitions at top level interleaved with drops and dumps (every constructor call ends with a collection of its own)
 TOPLEVEL = dict(STRUCT, n_txn=(0, 2), toplevel_mix=True)
+# switch_s: the inner dependency is rewired while events flow (the model is told the selector's value by S)
+SWITCH = dict(STRUCT, n_defs=(5, 14), n_txn=(2, 7),
+              weights=W(STRUCT["weights"], switchs=5, accum=1, collect=0.5, accumlazy=0, collectlazy=0))
 
 
 def gen(tier, seed, pid):
@@ -24,11 +27,11 @@ def gen(tier, seed, pid):
     n = 600 if tier == "quick" else 20000
     out = []
     for k in range(n):
-        kw = dict(STATIC if k % 4 == 3 else TOPLEVEL if k % 4 == 1 else STRUCT)
+        kw = dict(SWITCH if k % 5 == 4 else STATIC if k % 4 == 3 else TOPLEVEL if k % 4 == 1 else STRUCT)
         kw["leakcheck"] = (k % 3 == 0)
         out.append(apigen.generate(rng, apigen.profile(**kw)))
     import apienum
-    out += list(apienum.programs(3 if tier == "thorough" else 2, kinds=apienum.STRUCT_KINDS, mode="struct"))
+    out += list(apienum.programs(3 if tier == "thorough" else 2, kinds=apienum.STRUCT_KINDS + ["switchs"], mode="struct"))
     return out
 
 
